@@ -249,7 +249,7 @@ func runC08(w *hx.Worker, mk func() *recGrammar, onlyKey string) {
 		w.DistinctS("other:" + err.Error()[:minInt(30, len(err.Error()))])
 		return
 	}
-	w.DistinctS(fmt.Sprintf("expected=%v rejected=%v", expected, isLR))
+	w.DistinctS(fmt.Sprintf("%s expected=%v rejected=%v", key, expected, isLR))
 	if isLR {
 		w.Count("rejected_as_left_recursive", 1)
 		if !expected {
